@@ -130,3 +130,74 @@ def run(cx):
         sinks = G.ok_sinks(fn)
         lo = min(fa.length(E('param', 'ciphertext', ty='&[u8]'), s_)[0] for s_ in sinks) if sinks else None
         cx.add('L-DEC-MINLEN', 'decrypt', lo is not None and lo <= 66, 'the smallest ciphertext length that can reach Ok is %s; the smallest valid ciphertext (compressed C1, one byte of C2) has 66 bytes' % lo, fn.loc())
+
+
+_run1 = run
+
+
+def ident(e, cn):
+    """identity key of a bound expression: canonical text, but a merge of constants keeps the variable it was merged
+    into (two different variables that both hold "33 or 65" are different bounds)"""
+    e = strip(e)
+    if e.k == 'phi':
+        return 'phi#%s(%s)' % ((e.c or {}).get('phi_name', '?'), ' | '.join(sorted(ident(a, cn) for a in e.args)))
+    if e.k == 'field' and e.name == '0' and e.args and strip(e.args[0]).k == 'binop':
+        b = strip(e.args[0])
+        return '%s(%s)' % (b.name.replace('WithOverflow', ''), ', '.join(ident(a, cn) for a in b.args))
+    if e.k == 'binop':
+        return '%s(%s)' % (e.name.replace('WithOverflow', ''), ', '.join(ident(a, cn) for a in e.args))
+    return cn.c(e)
+
+
+def tiling(cx):
+    """F-TILE: per model, the slices taken from the ciphertext tile it: the first starts at 0, every next one starts at
+    the very bound (same variable, not merely the same set of possible values) where the previous one ends, and the
+    last one runs to the end.  A byte that belongs to no component is covered by neither the C1 decoder nor C3."""
+    fn = cx.fn('<impl key::Sm2PrivateKey>::decrypt')
+    if fn is None:
+        return
+    P = Prov(fn, cx.F); cn = Canon(fn, P)
+    names = variant_names(cx, 'key::Sm2Model')
+    per = {}
+    for b, t in fn.calls():
+        if t['fn']['k'] == 'def' and last(t['fn']['name']) == 'index':
+            a = G.call_args(fn, P, b)
+            if a[0].k == 'param' and a[0].name == 'ciphertext':
+                r = strip(a[1])
+                if r.k != 'aggr':
+                    continue   # single-byte reads (tag inspection) are not component slices
+                conds = select_conds(fn, P, b, cn)
+                vn = 'any'
+                for c in conds:
+                    if c.startswith('discr($model)='):
+                        v = c.split('=')[1]
+                        vn = names[int(v)] if v.isdigit() and int(v) < len(names) else v
+                if r.name == 'Range::Range':
+                    seg = (ident(r.args[0], cn), ident(r.args[1], cn))
+                elif r.name == 'RangeFrom::RangeFrom':
+                    seg = (ident(r.args[0], cn), 'END')
+                elif r.name == 'RangeTo::RangeTo':
+                    seg = ('0', ident(r.args[0], cn))
+                else:
+                    seg = ('?', '?')
+                per.setdefault(vn, []).append(seg)
+    n = 0
+    for vn in [x for x in names if x in per]:
+        segs = per.get('any', []) + per[vn]
+        # order as a chain from '0'
+        chain, cur, left = [], '0', list(segs)
+        while left:
+            nxt = [s for s in left if s[0] == cur]
+            if len(nxt) != 1:
+                break
+            chain.append(nxt[0]); left.remove(nxt[0]); cur = nxt[0][1]
+        ok = not left and cur == 'END' and len(chain) == 3
+        n += 1
+        cx.add('F-TILE', 'decrypt/' + vn, ok, 'ciphertext slices for %s: %s%s' % (vn, ' '.join('[%s..%s)' % s for s in chain),
+               '' if ok else '  — not a tiling; unplaced: %s' % left), fn.loc(), {'segments': segs})
+    cx.floor('F-TILE', 'decrypt/models', n, 2, 'models whose slicing was examined')
+
+
+def run(cx):
+    _run1(cx)
+    tiling(cx)
